@@ -53,8 +53,8 @@ def table_compile_plan():
     }
 
 
-def table_from_sexpr():
-    R = lambda v, i: C("helper", VF(1, v, i), P(2))
+def table_from_sexpr(w="helper"):
+    R = lambda v, i: C(w, VF(1, v, i), P(2))
     lit = lambda inner, pol: AggV("Literal", C("unwrap", C("get", P(2), inner)), K(pol))
     return {
         "Var": lit(VF(1, "Var", 0), 1),
@@ -67,10 +67,10 @@ def table_from_sexpr():
     }
 
 
-def table_ser_vtree():
+def table_ser_vtree(w="helper"):
     return {
         "Leaf": AggV("Leaf", C("value_usize", VF(1, "Leaf", 0))),
-        "Node": AggV("Node", C("helper", VF(1, "Node", 1)), C("helper", VF(1, "Node", 2))),
+        "Node": AggV("Node", C(w, VF(1, "Node", 1)), C(w, VF(1, "Node", 2))),
     }
 
 
@@ -134,8 +134,8 @@ def run(prog):
     out += from_dtree(prog)
     out += from_sexpr(prog)
     # vtree mirror
-    fn = prog.find1(name="helper", path_contains="VTreeSerializer::from_vtree", unit="rsdd-lib")
-    out += check_table("DP", fn, fn.terms, fn.terms.ret, table_ser_vtree(), ["Leaf", "Node"])
+    fn = _worker(prog, "from_vtree", "VTreeSerializer")
+    out += check_table("DP", fn, fn.terms, fn.terms.ret, table_ser_vtree(fn.name), ["Leaf", "Node"])
     out += wmc_homomorphism(prog)
     out += evaluate_encoding(prog)
     out += topdown_unsat(prog)
@@ -218,11 +218,36 @@ def from_dtree(prog):
     return out
 
 
+def _worker(prog, entry, owner):
+    """the self-recursive function that does the work of `owner::entry`: a nested fn, or a private associated function
+    the entry point hands its argument to — whatever it is called"""
+    es = [f for f in prog.lib_fns if f.name == entry and owner in f.npath and "{closure" not in f.npath and
+          not f.npath.split("::" + entry)[1]]
+    if len(es) != 1:
+        raise CheckerError("anchor %s::%s matched %d functions" % (owner, entry, len(es)))
+    e = es[0]
+    cands = []
+    for f in prog.lib_fns:
+        if f is e or "{closure" in f.npath:
+            continue
+        nested = f.npath.startswith(e.npath + "::")
+        called = any(f in prog.resolve(cs.callee) for cs in e.terms.calls if cs.callee.local or getattr(cs.callee, "res_local", False))
+        bodies = [f] + [g for g in prog.lib_fns if g.npath.startswith(f.npath + "::{closure")]
+        if (nested or called) and any(f in prog.resolve(cs.callee) for g in bodies for cs in g.terms.calls
+                                     if cs.callee.name == f.name and (cs.callee.local or getattr(cs.callee, "res_local", False))):
+            cands.append(f)
+    if len(cands) != 1:
+        raise CheckerError("anchor lookup: the recursive worker of %s::%s matched %d functions: %s"
+                           % (owner, entry, len(cands), [c.npath for c in cands][:4]))
+    return cands[0]
+
+
 def from_sexpr(prog):
-    fn = prog.find1(name="helper", path_contains="LogicalExpr::from_sexpr", unit="rsdd-lib")
+    fn = _worker(prog, "from_sexpr", "LogicalExpr")
     te = fn.terms
     variants = variants_of(prog, "ser_logical_expr::LogicalSExpr")
-    out = check_table("DP", fn, te, te.ret, table_from_sexpr(), variants, diverging=("True", "False"))
+    W = fn.name
+    out = check_table("DP", fn, te, te.ret, table_from_sexpr(W), variants, diverging=("True", "False"))
     arms = gamma_arms(te, te.ret) or {}
     key = fn.npath + ":Not"
     n = arms.get("Not")
@@ -238,7 +263,16 @@ def from_sexpr(prog):
             if not ok:
                 e1 = "Not(Var) must become a negative literal, found %s" % show(v)
             else:
-                idx = v[4][0]
+                idx = strip(v[4][0])
+                from .base import expand
+                for _ in range(2):
+                    if isinstance(idx, tuple) and idx and idx[0] == "call" and idx[1].name != "unwrap":
+                        e_ = expand(idx)
+                        if e_ is None:
+                            break
+                        idx = strip(e_)
+                while isinstance(idx, tuple) and idx and idx[0] in ("deref", "ref"):
+                    idx = strip(idx[1])
                 ok2 = (isinstance(idx, tuple) and idx[0] == "call" and idx[1].name == "unwrap")
                 if not ok2:
                     e1 = "literal index is not map.get(name).unwrap(): %s" % show(idx)
@@ -247,28 +281,28 @@ def from_sexpr(prog):
             if not rest:
                 e2 = "no general Not arm"
             else:
-                e2 = match(AggV("Not", C("helper", VF(1, "Not", 0), P(2))), rest[0], ("new",))
+                e2 = match(AggV("Not", C(W, VF(1, "Not", 0), P(2))), rest[0], ("new",))
             # any further special case of the operand must still denote the negation of the operand
             for k, t in inner.items():
                 if k == "Var" or (isinstance(k, tuple) and k[0] == "rest"):
                     continue
-                e3 = match(AggV("Not", C("helper", VF(1, "Not", 0), P(2))), t, ("new",))
-                if e3 and k == "Not" and _is_double_neg_shortcut(t):
+                e3 = match(AggV("Not", C(W, VF(1, "Not", 0), P(2))), t, ("new",))
+                if e3 and k == "Not" and _is_double_neg_shortcut(t, W):
                     e3 = None  # Not(Not e) ↦ helper(e) is the one sound shortcut
                 if e3:
                     e2 = e2 or ("Not(%s ..) arm: %s" % (k, e3))
             err = e1 or e2
         else:
-            err = match(AggV("Not", C("helper", VF(1, "Not", 0), P(2))), n, ("new",))
+            err = match(AggV("Not", C(W, VF(1, "Not", 0), P(2))), n, ("new",))
     out.append(inst("DP", key, VIOLATION if err else OK, fn, None,
                     err or "Not(Var s) ↦ Literal(map[s], false); Not(e) ↦ Not(helper(e))"))
     return out
 
 
-def _is_double_neg_shortcut(t):
+def _is_double_neg_shortcut(t, w="helper"):
     """helper(<operand of the inner Not>, mapping)"""
     t = strip(t)
-    if not mir.is_call(t, "helper") or len(t[2]) != 2:
+    if not mir.is_call(t, w) or len(t[2]) != 2:
         return False
     a = strip(t[2][0])
     chain = []
